@@ -37,8 +37,13 @@ def run(argv, comp_text=None, xml_text=None):
                       and "ringingroom" not in url else None)
     saved_routes = implrun.HTTP.routes
     implrun.HTTP.routes = routes
-    real_create, real_bot = wmain.create_rhythm, wmain.Bot
+    real_create, real_bot, real_tower = wmain.create_rhythm, wmain.Bot, wmain.RingingRoomTower
     cap = {}
+
+    class Tower(real_tower):
+        def __init__(self, *a, **k):
+            cap["tower_args"] = list(a) + list(k.values())
+            super().__init__(*a, **k)
 
     def create_rhythm(*a, **k):
         try:
@@ -59,7 +64,7 @@ def run(argv, comp_text=None, xml_text=None):
                 cap["bot"] = {"args": a, "kwargs": k}
             raise _Built()
 
-    wmain.create_rhythm, wmain.Bot = create_rhythm, Bot
+    wmain.create_rhythm, wmain.Bot, wmain.RingingRoomTower = create_rhythm, Bot, Tower
     err = io.StringIO()
     try:
         with contextlib.redirect_stderr(err), contextlib.redirect_stdout(io.StringIO()):
@@ -69,13 +74,13 @@ def run(argv, comp_text=None, xml_text=None):
         gen = next((v for v in cap.get("bot", {}).values()
                     if hasattr(v, "next_row_and_calls") or hasattr(v, "next_row")), None)
         return {"outcome": "built", "gen": gen, "rhythm_args": cap.get("rhythm_args"), "bot": cap.get("bot"),
-                "rhythm": cap.get("rhythm")}
+                "rhythm": cap.get("rhythm"), "tower_args": cap.get("tower_args")}
     except SystemExit as e:
         return {"outcome": "exit", "code": e.code, "stderr": err.getvalue()}
     except Exception as e:  # noqa
         return {"outcome": "raise", "exc": e}
     finally:
-        wmain.create_rhythm, wmain.Bot = real_create, real_bot
+        wmain.create_rhythm, wmain.Bot, wmain.RingingRoomTower = real_create, real_bot, real_tower
         implrun.HTTP.routes = saved_routes
 
 
